@@ -300,6 +300,12 @@ def load_known():
     return json.load(open(KNOWN_FINDINGS)).get("findings", [])
 
 
+def open_finding_ids(pid=None):
+    """ids of OPEN entries of known_findings.json (optionally for one property).  Neutralisers in the
+    property modules must only be active for open findings: a fixed finding suppresses nothing."""
+    return {k["id"] for k in load_known() if k.get("status") == "open" and (pid is None or k.get("property") == pid)}
+
+
 def check_known(mod, pid) -> List[str]:
     """Pinned replays of OPEN findings: print KNOWN-FINDING lines while they still fail.
     Fixed entries are ordinary regression cases living in corpus/."""
